@@ -9,10 +9,11 @@ def loaderD (op : String) (args : List Nat) : Option String :=
   | "select" => some <| match runP (do
         let n ← pNat; let skip ← pNat; let lim ← pOpt pNat; let ff ← pNat; let rank ← pNat; let w ← pNat
         let _rest ← pNats
-        pure (n, skip, lim, ff, rank, w)) args with
-      | some (n, skip, lim, ff, rank, w) =>
+        let invalid ← pNats
+        pure (n, skip, lim, ff, rank, w, invalid)) args with
+      | some (n, skip, lim, ff, rank, w, invalid) =>
         if w == 0 || rank ≥ w then reject else
-        ok (eNats (selectIdx n skip lim ff rank w) ++ [minItems n skip lim])
+        ok (eNats (selectValid n skip lim ff rank w invalid) ++ [minItems n skip lim])
       | none => reject
   | _ => none
 
